@@ -144,6 +144,8 @@ class Engine:
         key = (fn, inst.get('line'), inst['id'], what)
         if key not in self.alarms:
             self.alarms[key] = (ctx, sorted(labels))
+        elif not set(labels) <= set(self.alarms[key][1]):
+            self.alarms[key] = (self.alarms[key][0], sorted(set(labels) | set(self.alarms[key][1])))
     def lower_bound(self, f_index, o, depth=0):
         k = o['k']
         if k == 'c': return o['v']
@@ -392,21 +394,34 @@ class Engine:
     def ext_ptr(self, i):
         isptr = i['ty'].endswith('*')
         def fn(region, off):
-            if region[0] == 'S' and region[1][0] == 'X':
-                base = region[2]; region = region[1]
-                off = None if off is None else base + off
-                if off is None:
-                    labs = set()
-                    for o in range(base, base + 1): pass
-                    labs = set(self.policy.labels(region, None, base, base + 0)) if hasattr(self.policy, 'range_labels') else set(self.policy.labels(region, base))
-                    return AV(frozenset(labs))
-            if region[0] != 'X': return BOT
-            labels = self.policy.labels(region, off)
-            if isptr and off is not None:
-                tg = getattr(self.policy, 'ptr_rules', {}).get((region[1], off))
-                if tg: return AV(frozenset(labels), frozenset(((('F', g[2:]) if g.startswith('F:') else ('G', g)), 0) for g in tg))
-                return AV(frozenset(labels), frozenset([(('X', region[1] + (off,)), 0)]))
-            return AV(frozenset(labels))
+            # resolve views / sub-objects of an external region to a byte range [lo, hi) of that region (hi None: unbounded)
+            lo = off
+            hi = None if off is None else off + 1
+            cur = region
+            while cur[0] in ('V', 'S'):
+                if cur[0] == 'V':
+                    lo, hi = None, None          # unknown position inside the parent
+                else:
+                    if lo is None:
+                        lo, hi = cur[2], cur[2] + cur[3]
+                    else:
+                        lo, hi = cur[2] + lo, cur[2] + hi
+                cur = cur[1]
+            if cur[0] != 'X': return BOT
+            if lo is None:
+                return AV(frozenset(self.policy.labels(cur, None)))
+            if hi - lo == 1:
+                labels = self.policy.labels(cur, lo)
+                if isptr and region[0] in ('X', 'S') and off is not None:
+                    tg = getattr(self.policy, 'ptr_rules', {}).get((cur[1], lo))
+                    if tg: return AV(frozenset(labels), frozenset(((('F', g[2:]) if g.startswith('F:') else ('G', g)), 0) for g in tg))
+                    return AV(frozenset(labels), frozenset([(('X', cur[1] + (lo,)), 0)]))
+                return AV(frozenset(labels))
+            labs = set()
+            for o in range(lo, min(hi, lo + 4096)):
+                labs |= set(self.policy.labels(cur, o))
+            if hi - lo > 4096: labs |= set(self.policy.labels(cur, None))
+            return AV(frozenset(labs))
         return fn
     def widen(self, av):
         byreg = collections.defaultdict(list)
@@ -460,10 +475,12 @@ class Engine:
                 self.ccopy(ctx, fn, i, [A[2], A[0], A[1], BOT])
                 self.ccopy(ctx, fn, i, [A[2], A[1], A[0], BOT])
                 continue
-            if t == 'br_verif_public64': res = res.join(AV(frozenset(), A[0].ptrs)); continue
+            if t == 'br_verif_public64':
+                res = res.join(A[0] if getattr(self.policy, 'keep_marks', False) else AV(frozenset(), A[0].ptrs)); continue
             if t == 'br_verif_public_mem':
-                for r, off in A[0].ptrs:
-                    if off is not None: self.mem.public.add((r, off))
+                if not getattr(self.policy, 'keep_marks', False):
+                    for r, off in A[0].ptrs:
+                        if off is not None: self.mem.public.add((r, off))
                 continue
             if t in self.policy.nonct:
                 lab = set()
